@@ -21,7 +21,11 @@ InitT == [ ents  |-> [e \in Ents |-> "none"],       \* none | created | added | 
            feats |-> {},                           \* [e, no, type, role, fns]   fns: set of [fn, r, w]
            next  |-> [e \in Ents |-> 1] ]          \* next feature number of the entity (1-based off entity 0)
 
-Feat(e, no, t, r, fns) == [e |-> e, no |-> no, type |-> t, role |-> r, fns |-> fns]
+\* desc: version of the description; seen: ghost - the feature's information has been handed out (read, or announced with
+\* its entity) - no outcome depends on it, it keeps histories apart in which a change follows an announcement
+Feat(e, no, t, r, fns) == [e |-> e, no |-> no, type |-> t, role |-> r, fns |-> fns, desc |-> 1, seen |-> FALSE]
+Strip(f) == [f EXCEPT !.seen = FALSE]
+MarkSeen(st, es) == [st EXCEPT !.feats = {IF f.e \in es THEN [f EXCEPT !.seen = TRUE] ELSE f : f \in @}]
 FeatsOf(st, e) == {f \in st.feats : f.e = e}
 Announced(st) == {f \in st.feats : st.ents[f.e] = "added"}
 AddedEnts(st) == {e \in Ents : st.ents[e] = "added"}
@@ -47,17 +51,25 @@ AddFnOut(st, a) ==
     THEN LET f == CHOOSE f \in FeatsOf(st, a.e) : f.no = a.no
          IN Out([st EXCEPT !.feats = (@ \ {f}) \cup {[f EXCEPT !.fns = @ \cup {[fn |-> a.fn, r |-> a.r, w |-> a.w]}]}], "ok", NoReply, NoNotes)
     ELSE Out(st, "ok", NoReply, NoNotes)
+\* SetDescription on a feature (announced or not): the next reply / notification shows it
+SetDescOut(st, a) ==
+    IF \E f \in FeatsOf(st, a.e) : f.no = a.no
+    THEN LET f == CHOOSE f \in FeatsOf(st, a.e) : f.no = a.no
+         IN Out([st EXCEPT !.feats = (@ \ {f}) \cup {[f EXCEPT !.desc = 2]}], "ok", NoReply, NoNotes)
+    ELSE Out(st, "ok", NoReply, NoNotes)
 AddEntOut(st, a) ==
     IF st.ents[a.e] # "created" THEN Out(st, "skip", NoReply, NoNotes)
-    ELSE Out([st EXCEPT !.ents[a.e] = "added"], "ok", NoReply, ToSubs([chg |-> "added", e |-> a.e, feats |-> FeatsOf(st, a.e)]))
+    ELSE Out(MarkSeen([st EXCEPT !.ents[a.e] = "added"], {a.e}), "ok", NoReply,
+             ToSubs([chg |-> "added", e |-> a.e, feats |-> {Strip(f) : f \in FeatsOf(st, a.e)}]))
 RemEntOut(st, a) ==
     IF st.ents[a.e] # "added" THEN Out(st, "skip", NoReply, NoNotes)
     ELSE Out([st EXCEPT !.ents[a.e] = "removed"], "ok", NoReply, ToSubs([chg |-> "removed", e |-> a.e, feats |-> {}]))
-ReadOut(st, a) == Out(st, "ok", [ents |-> AddedEnts(st), feats |-> Announced(st), none |-> FALSE], NoNotes)
+ReadOut(st, a) == Out(MarkSeen(st, AddedEnts(st)), "ok", [ents |-> AddedEnts(st), feats |-> {Strip(f) : f \in Announced(st)}, none |-> FALSE], NoNotes)
 
 Outcome(st, a) == CASE a.a = "newent"  -> NewEntOut(st, a)
                     [] a.a = "addfeat" -> AddFeatOut(st, a)
                     [] a.a = "addfn"   -> AddFnOut(st, a)
+                    [] a.a = "setdesc" -> SetDescOut(st, a)
                     [] a.a = "addent"  -> AddEntOut(st, a)
                     [] a.a = "rement"  -> RemEntOut(st, a)
                     [] a.a = "read"    -> ReadOut(st, a)
@@ -68,8 +80,9 @@ Inputs(st) ==
     \cup On("addfeat", {[a |-> "addfeat", e |-> e, t |-> t, r |-> r] :
                           e \in {x \in Ents : st.ents[x] \in {"created", "added"} /\ st.next[x] <= MaxFeat}, t \in FTypes, r \in Roles})
     \cup On("addfn", UNION {{[a |-> "addfn", e |-> f.e, no |-> f.no, fn |-> fn, r |-> rw[1], w |-> rw[2]] :
-                               fn \in FnOf[f.type], rw \in {<<TRUE, FALSE>>, <<TRUE, TRUE>>, <<FALSE, FALSE>>}} :
+                               fn \in FnOf[f.type], rw \in {<<TRUE, FALSE>>, <<TRUE, TRUE>>, <<FALSE, FALSE>>, <<FALSE, TRUE>>}} :
                             f \in {x \in st.feats : st.ents[x.e] \in {"created", "added"}}})
+    \cup On("setdesc", {[a |-> "setdesc", e |-> f.e, no |-> f.no] : f \in {x \in st.feats : st.ents[x.e] \in {"created", "added"} /\ x.desc = 1}})
     \cup On("addent", {[a |-> "addent", e |-> e] : e \in {x \in Ents : st.ents[x] = "created"}})
     \cup On("rement", {[a |-> "rement", e |-> e] : e \in {x \in Ents : st.ents[x] = "added"}})
     \cup On("read", {[a |-> "read", p |-> p] : p \in Peers})
